@@ -27,6 +27,7 @@ type Config struct {
 	Rates      []float64 `json:",omitempty"`
 	TargetRatio float64 `json:",omitempty"`
 	PCRD       bool `json:",omitempty"`
+	HT         bool `json:",omitempty"` // EncodeParams.HTJ2KMode (Part 15 code-blocks, CAP/TLM, tile-parts per resolution)
 }
 
 // Params builds the library's parameter object for an image and a configuration.
@@ -47,6 +48,7 @@ func Params(im *gen.Image, c *Config) *jpeg2000.EncodeParams {
 	p.LayerRates = c.Rates
 	p.TargetRatio = c.TargetRatio
 	p.UsePCRDOpt = c.PCRD
+	p.HTJ2KMode = c.HT
 	return p
 }
 
